@@ -121,6 +121,16 @@ def handle : Handler := fun j a => do
   let pre : In := { cs := cs, active := active, sw := sw, oldMaster := oldMaster, turbo := turbo, ro := ro, io := io,
                     lock1 := lock 1, lock2 := lock 2, positions := none, cs2 := cs, repoint := fun _ => true }
   let fr := frozen pre
+  -- every reachable member of the work list is ASKED to freeze: a failed request is indistinguishable from a skipped one in
+  -- the step comparison (failed steps are projected away), so the raw statement log is consulted
+  let evList := (jStrList j "evs").toOption.getD []
+  let sawFreeze := obsAll.any fun o => o.s == "freezeRO" || o.s == "stopIO"
+  let killedHost := match jOpt j "fault" with | some f => jStrOr f "kill" "" | none => ""
+  if sawFreeze then
+    for h in workList pre do
+      -- (a server killed during the procedure refuses the connection: no statement reaches it)
+      if pingOk cs h == some true && h != killedHost && !(evList.any fun e => e.startsWith s!"{h}:set_ro") then
+        a := a.violationSig "C01:reachable-list-member-never-asked-to-freeze" s!"{h} (work list {workList pre}, old master {oldMaster}) in {j.compress}"
   let posList : List Pos := match lock1Snap with
     | some s =>
       let nodes := snapNodes s
@@ -164,7 +174,11 @@ def handle : Handler := fun j a => do
       { i with stopSlaveOk := false }, { i with resetOk := false }, { i with writableOk := false }, { i with masterKeyOk := false }]
     let victim := match jOpt j "fault" with | some f => jStrOr f "kill" "" | none => ""
     -- a node killed while its own freeze statement was in flight may or may not have answered
-    let killed := fun (i : In) => if victim == "" then [i] else [i, { i with io := fun h => i.io h && h != victim }, { i with ro := fun h => i.ro h && h != victim }]
+    let noV := fun (i : In) => i.positions.map fun ps => ps.filter (·.host != victim)
+    let killed := fun (i : In) => if victim == "" then [i] else
+      [i, { i with io := fun h => i.io h && h != victim }, { i with ro := fun h => i.ro h && h != victim },
+       -- … and then its position is not among the collected ones
+       { i with io := (fun h => i.io h && h != victim), positions := noV i }, { i with ro := (fun h => i.ro h && h != victim), positions := noV i }]
     ((withPos ++ noPos).flatMap killed).flatMap more
   -- unreachable hosts receive no statement in the freeze phases: their (failed) model steps are not observable
   let reach := fun (h : String) => (pingOk cs h == some true)
